@@ -342,6 +342,26 @@ def _pairing_list_operating(f: FuncInfo, cfg: CFG, P: RuleResult):
 
 
 # ------------------------------------------------------------------------------------------------- W
+def _entered_on_exit_stack(c: ast.Call, p) -> bool:
+    """`stack.enter_context(<cm call>)` inside `with [contextlib.]ExitStack() as stack:` - the stack exits every manager entered on it
+    when the block is left, normally or by an exception"""
+    if not (isinstance(p, ast.Call) and isinstance(p.func, ast.Attribute) and p.func.attr == "enter_context" and len(p.args) == 1 and p.args[0] is c
+            and isinstance(p.func.value, ast.Name)):
+        return False
+    st = p.func.value.id
+    for a in ancestors(p):
+        if isinstance(a, ast.With):
+            for it in a.items:
+                if isinstance(it.optional_vars, ast.Name) and it.optional_vars.id == st and isinstance(it.context_expr, ast.Call) \
+                        and ast.unparse(it.context_expr.func).split(".")[-1] == "ExitStack":
+                    # the name is not re-bound inside the block
+                    rebound = any(isinstance(n, ast.Name) and n.id == st and isinstance(n.ctx, ast.Store) for b in a.body for n in ast.walk(b))
+                    return not rebound
+        if isinstance(a, (ast.FunctionDef, ast.AsyncFunctionDef, ast.Lambda)):
+            break
+    return False
+
+
 def _with_only(model: Model, W: RuleResult):
     for f in model.all_functions():
         for c in own_nodes(f.node):
@@ -352,6 +372,8 @@ def _with_only(model: Model, W: RuleResult):
                 what = "%s uses %s(...)" % (f.qualname, ast.unparse(c.func))
                 if isinstance(p, ast.withitem):
                     W.ok(f.fq, what + " as a with item")
+                elif _entered_on_exit_stack(c, p):
+                    W.ok(f.fq, what + " entered on an ExitStack that is itself a with item (closed, in reverse order, on every exit of that block)")
                 else:
                     W.bad(f, enclosing_stmt(c), "context manager `%s` must only be used as a `with` item (called bare or entered manually, "
                           "its restore is not guaranteed)" % _callee_name(c), what=what)
